@@ -454,6 +454,18 @@ class WritableStream(io.RawIOBase):
         An empty segmented SDO message may be sent saying there is no more data.
         """
         super(WritableStream, self).close()
+        if not self._done and self._exp_data:
+            # Less than the announced size was written, send what there is
+            data, self._exp_data = self._exp_data, b""
+            command = REQUEST_DOWNLOAD | EXPEDITED | SIZE_SPECIFIED
+            command |= (4 - len(data)) << 2
+            request = bytes([command]) + self._exp_header[1:] + data.ljust(4, b"\x00")
+            response = self.sdo_client.request_response(request)
+            res_command, = struct.unpack_from("B", response)
+            if res_command & 0xE0 != RESPONSE_DOWNLOAD:
+                raise SdoCommunicationError(
+                    f"Unexpected response 0x{res_command:02X}")
+            self._done = True
         if not self._done and not self._exp_header:
             # Segmented download not finished
             command = REQUEST_SEGMENT_DOWNLOAD | NO_MORE_DATA
